@@ -114,6 +114,10 @@ func execOp(s *exec.State, ev abs.V) {
 		if x, ok := ev["eqb"]; ok {
 			eqb = abs.I(x)
 		}
+		if r, ok := ev["reuse"].(bool); ok && r {
+			s.UnmarshalInto(ev["entry"].(string), abs.I(ev["b"]), h)
+			break
+		}
 		s.UnmarshalFull(ev["entry"].(string), abs.I(ev["b"]), h, dh, eqh, eqb)
 	case "unmarshal2":
 		s.UnmarshalReuse(ev["entry"].(string), abs.GoBytes(ev["first"]), abs.I(ev["b"]))
@@ -126,6 +130,10 @@ func execOp(s *exec.State, ev abs.V) {
 		}
 		s.DatagramParts(abs.I(ev["b"]), h, parts)
 	case "udec":
+		if r, ok := ev["reuse"].(bool); ok && r {
+			s.UnitDecodeInto(ev["entry"].(string), abs.GoBytes(ev["prev"]), abs.I(ev["b"]))
+			break
+		}
 		s.UnitDecode(ev["entry"].(string), abs.I(ev["b"]))
 	case "uenc":
 		s.UnitEncode(ev["entry"].(string), ev["v"], h)
